@@ -131,6 +131,9 @@ func (o Options) fromBytesCheckEnd(data []byte, checkEndOption bool) error {
 			end = true
 			break
 		}
+		if !buf.Has(1) {
+			return fmt.Errorf("error collecting options: option %d has no length byte", code)
+		}
 		length := int(buf.Read8())
 
 		// N bytes: option data
